@@ -3,6 +3,7 @@ import HmcVerif.Model.Metropolis
 import HmcVerif.Real.Ext
 import HmcVerif.Real.Reflect
 import HmcVerif.Real.Fold
+import HmcVerif.Real.BoxTreeThm
 import HmcVerif.Props.C02
 import Mathlib.Tactic.Linarith
 /-
